@@ -160,7 +160,8 @@ class dotdict_base( object ):
                         #logging.info( '_resolve unbalanced %r.%r"' % ( mine, rest ))
                         if not rest:
                             raise KeyError( "unbalance brackets in %s" % key )
-                        ext,rest= rest.split( '.', 1 )
+                        ext,_,rest= rest.partition( '.' ) # the closing bracket may be in the last segment
+                        rest	= rest or None
                         mine   += '.' + ext
                 break
             mine		= rest
